@@ -1021,6 +1021,8 @@ def cs2(ctx, R):
         if not on_data or not on_scalers:
             if find(v, ("loop", W(), W())) or v[0] == "opaque":
                 R.undecided(q, fi.where(), "windowing of %s not in normal form" % ("the scaler arrays" if on_data else "the data"))
+            elif not on_data and not on_scalers:
+                R.unrecognised(q, fi.where(), "no slice is applied in the normal form of this function (the windowing may live in a method of the chunk object): not decided")
             else:
                 R.violation(q, fi.where(), "%s: data and scaler data are not both windowed" % (
                     "only the data array is sliced" if on_data else ("only the scaler arrays are sliced" if on_scalers else "no slice is applied")))
